@@ -47,12 +47,12 @@
 (***************************************************************************)
 EXTENDS Naturals, Sequences, FiniteSets, TLC, Json
 
-CONSTANTS Instance,     \* "plonk" | "stark" | "starkvar"
+CONSTANTS Instance,     \* "plonk" | "stark" | "starkvar" (check lists) | "vararith" (Part 3 over the lattice)
+          NL,           \* commit-phase layers of the circuit (0..3)
           Disabled,     \* set of circuit-side check ids that are switched off
           Mutant        \* "none" | a named mutant of Part 3 / of the circuit schedule
 
 Q  == 2      \* query rounds
-NL == 2      \* commit-phase layers of the circuit
 NC == 2      \* challenges (copies of the vanishing identity)
 Rs == 0..(Q - 1)
 Ls == 0..(NL - 1)
@@ -81,7 +81,7 @@ FinalBits(c, d) == d - c.a * Steps(c, d)
 Pre(c) == /\ c.mindb <= c.maxdb
           /\ c.mindb + c.rate > c.cap
           /\ \A d \in c.mindb..c.maxdb : StepsOk(c, d)
-          /\ (Mutant = "free_final_len" \/ FinalBits(c, c.maxdb) = c.f + 1)
+          /\ FinalBits(c, c.maxdb) = c.f + 1
 VarCfgs == {c \in [rate : 1..2, cap : 2..5, a : 1..3, f : 1..4, maxdb : 4..10, mindb : 2..9] : Pre(c)}
 
 SMax(c) == Steps(c, c.maxdb)
@@ -184,7 +184,7 @@ S(n) == C(n, 0, 0)
 OracleCap(o) == IF IsPlonk
                 THEN (CASE o = 0 -> S("vd_cap") [] o = 1 -> S("wires_cap") [] o = 2 -> S("zs_cap") [] OTHER -> S("quot_cap"))
                 ELSE (IF o = 0 THEN S("trace_cap") ELSE S("quot_cap"))
-OpeningNames == IF IsPlonk THEN <<"op_constants", "op_sigmas", "op_wires", "op_zs", "op_pp", "op_quot", "op_zs_next">>
+OpeningNames == IF IsPlonk THEN <<"op_constants", "op_sigmas", "op_wires", "op_zs", "op_pp", "op_quot", "op_lzs", "op_zs_next", "op_lzs_next">>
                 ELSE <<"op_local", "op_quot", "op_next">>
 Openings == {S(OpeningNames[i]) : i \in 1..Len(OpeningNames)}
 
@@ -221,16 +221,19 @@ CircuitSchedule(db) ==
   IN IF Mutant = "circuit_skips_final_poly" THEN SelectSeq(live, LAMBDA s : s.c # S("final_poly")) ELSE live
 
 Chk(id, reads, reads1, chals) == [id |-> id, reads |-> reads, reads1 |-> reads1, chals |-> chals]
-VanishingReads == Openings \cup {S("pis")} \cup (IF IsPlonk THEN {} ELSE {S("degree_bits")})
-Vanishing(i) == Chk("Vanishing" \o Digit(i), VanishingReads, {}, (IF IsPlonk THEN {"betas"} ELSE {}) \cup {"alphas", "zeta"})
+\* a wire / constant / trace column that no constraint mentions does not enter the identity: one changed element of
+\* these opening vectors MAY go unnoticed by the vanishing check (the transcript still notices it)
+VanishingPartial == IF IsPlonk THEN {S("op_wires"), S("op_constants")} ELSE {S("op_local"), S("op_next")}
+VanishingReads == (Openings \ VanishingPartial) \cup {S("pis")} \cup (IF IsPlonk THEN {} ELSE {S("degree_bits")})
+Vanishing(i) == Chk("Vanishing" \o Digit(i), VanishingReads, VanishingPartial, (IF IsPlonk THEN {"betas"} ELSE {}) \cup {"alphas", "zeta"})
 PowChk == Chk("Pow", {}, {}, {"pow_response"})
-InitMerkle(r, o) == Chk("InitMerkle" \o Digit(o), {C("leaf", r, o), C("path", r, o)}, {OracleCap(o)}, {"x_index"})
-Combined(r) == {C("leaf", r, o) : o \in Os} \cup Openings
+InitMerkle(r, o) == Chk("InitMerkle" \o Digit(o), {C("init_leaf", r, o), C("init_path", r, o)}, {OracleCap(o)}, {"x_index"})
+Combined(r) == {C("init_leaf", r, o) : o \in Os} \cup Openings
 Consistency(r, l) == Chk("Consistency" \o Digit(l),
-                         IF l = 0 THEN Combined(r) ELSE {C("evals", r, l - 1)}, {C("evals", r, l)},
+                         IF l = 0 THEN Combined(r) ELSE {C("step_eval", r, l - 1)}, {C("step_eval", r, l)},
                          IF l = 0 THEN {"fri_alpha", "zeta", "x_index"} ELSE {Beta(l - 1), "x_index"})
-LayerMerkle(r, l) == Chk("LayerMerkle" \o Digit(l), {C("evals", r, l), C("lpath", r, l)}, {C("commit_cap", 0, l)}, {"x_index"})
-Final(r, n) == Chk("Final", {S("final_poly")} \cup (IF n = 0 THEN Combined(r) ELSE {C("evals", r, n - 1)}), {},
+LayerMerkle(r, l) == Chk("LayerMerkle" \o Digit(l), {C("step_eval", r, l), C("step_path", r, l)}, {C("commit_cap", 0, l)}, {"x_index"})
+Final(r, n) == Chk("Final", {S("final_poly")} \cup (IF n = 0 THEN Combined(r) ELSE {C("step_eval", r, n - 1)}), {},
                    IF n = 0 THEN {"fri_alpha", "zeta", "x_index"} ELSE {Beta(n - 1), "x_index"})
 RECURSIVE LayerChecks(_, _, _)
 LayerChecks(r, l, n) == IF l >= n THEN <<>> ELSE <<Consistency(r, l), LayerMerkle(r, l)>> \o LayerChecks(r, l + 1, n)
@@ -254,9 +257,9 @@ CircuitChecks(db) == SelectSeq(VanChecks(0) \o <<PowChk>> \o AllRounds(0, Cardin
 StaticComps ==
   {S("pis"), S("final_poly"), S("pow_witness")} \cup Openings
   \cup (IF IsPlonk THEN {S("wires_cap"), S("zs_cap"), S("quot_cap")} ELSE {S("trace_cap"), S("quot_cap")})
-  \cup {C("commit_cap", 0, l) : l \in Ls} \cup {C("leaf", 0, o) : o \in Os} \cup {C("path", 0, o) : o \in Os}
-  \cup {C("evals", 1, l) : l \in Ls} \cup {C("lpath", 1, l) : l \in Ls}
-CompName(c) == IF c.k \in {"leaf", "path", "commit_cap", "evals", "lpath"} THEN c.k \o ":" \o Digit(c.i) ELSE c.k
+  \cup {C("commit_cap", 0, l) : l \in Ls} \cup {C("init_leaf", 0, o) : o \in Os} \cup {C("init_path", 0, o) : o \in Os}
+  \cup {C("step_eval", 1, l) : l \in Ls} \cup {C("step_path", 1, l) : l \in Ls}
+CompName(c) == IF c.k \in {"init_leaf", "init_path", "commit_cap", "step_eval", "step_path"} THEN c.k \o ":" \o Digit(c.i) ELSE c.k
 AllIds(pre) == {pre \o Digit(i) : i \in 0..3}
 VanIds == {"Vanishing" \o Digit(i) : i \in Is}
 StaticClasses == {[name |-> CompName(c), kind |-> "static", touched |-> c, partial |-> TRUE, breaks |-> {}, maybe |-> {}] : c \in StaticComps}
@@ -311,7 +314,7 @@ Outcome(rer, a, k) ==
           \/ a.kind = "adaptive" /\ k.id \in a.maybe
        THEN "maybe" ELSE "no"
 \* a component that exists only in layers the proof does not have is not a class of that degree
-Exists(a, d) == a.kind # "static" \/ a.touched.k \notin {"commit_cap", "evals", "lpath"} \/ a.touched.i \in Layers(d)
+Exists(a, d) == a.kind # "static" \/ a.touched.k \notin {"commit_cap", "step_eval", "step_path"} \/ a.touched.i \in Layers(d)
 
 Verdict(rer, checks, a) ==
   IF \E i \in 1..Len(checks) : Outcome(rer, a, checks[i]) = "yes" THEN "reject"
